@@ -32,7 +32,7 @@ REQUIRED_MONITORS = ["ConvexPolyhedron.volume", "ConvexPolyhedron.surface_area",
                      "ConvexPolyhedron.inertia_tensor", "ConvexPolyhedron.get_face_area", "ConvexPolyhedron.face_centroids",
                      "order-independence", "lattice-exact"]
 REQUIRED_CLASSES = ["kind:lattice", "kind:tabulated", "kind:prism", "kind:ellipsoid-flat", "kind:ellipsoid-needle",
-                    "offset:10.0", "offset:0.0", "history:aged-object"]
+                    "offset:10.0", "offset:0.0", "history:aged-object", "kind:exact-needle", "kind:exact-low-apex", "kind:exact-plate"]
 
 _cache = {}
 
@@ -61,6 +61,44 @@ def facts(V):
     return _cache[key]
 
 
+def register_exact(P, Pint, e):
+    """Facts for an exactly representable solid (P == Pint / 2^e) from integer arithmetic only; tolerances of the
+    monitors become relative to each quantity itself (``exact`` flag), since nothing here is rounded before the end."""
+    import math
+
+    P = np.asarray(P, float)
+    facets, normals = geom.hull_exact_int(Pint)
+    sc = Fraction(1, 1 << e)
+    fl, fa, fc, nl = [], [], [], []
+    for f, N in zip(facets, normals):
+        nf = np.array([float(x) for x in N])
+        nf /= math.sqrt(float(N[0] * N[0] + N[1] * N[1] + N[2] * N[2]))
+        cyc = geom._order_facet(P, list(f), nf)
+        fl.append(cyc)
+        nl.append(nf)
+        fa.append(math.sqrt(float(Fraction(geom.facet_area2_int(Pint, cyc), 4) * sc ** 4)))
+        a = Pint[cyc[0]]
+        wsum, csum = 0, [0, 0, 0]
+        for t in range(1, len(cyc) - 1):
+            b, c = Pint[cyc[t]], Pint[cyc[t + 1]]
+            u = [b[k] - a[k] for k in range(3)]
+            v = [c[k] - a[k] for k in range(3)]
+            cr = (u[1] * v[2] - u[2] * v[1], u[2] * v[0] - u[0] * v[2], u[0] * v[1] - u[1] * v[0])
+            w = cr[0] * N[0] + cr[1] * N[1] + cr[2] * N[2]
+            wsum += w
+            for k in range(3):
+                csum[k] += w * (a[k] + b[k] + c[k])
+        fc.append(np.array([float(Fraction(csum[k], 3 * wsum) * sc) for k in range(3)]))
+    Vq, cq, Iq = geom.solid_exact_fraction(Pint, fl)
+    h = geom.Hull(P, fl, np.array(nl), np.array([float(np.mean(P[f] @ n)) for f, n in zip(fl, nl)]))
+    _cache[P.tobytes()] = {"hull": h, "V": float(Vq * sc ** 3), "c": np.array([float(x * sc) for x in cq]),
+                           "I": np.array([[float(x * sc ** 5) for x in r] for r in Iq]), "S": float(sum(fa)),
+                           "face_area": {frozenset(f): a for f, a in zip(fl, fa)},
+                           "face_cen": {frozenset(f): c for f, c in zip(fl, fc)},
+                           "L": float(np.linalg.norm(P, axis=1).max()), "d": gen.diameter(P), "exact": True}
+    return _cache[P.tobytes()]
+
+
 def _wit(s, **kw):
     w = {"vertices": np.asarray(s.vertices)}
     w.update(kw)
@@ -74,12 +112,13 @@ def setup(rec, tier):
 
     def vol_post(s, a, k, res, tok):
         F = facts(s.vertices)
-        rec.close("ConvexPolyhedron.volume", float(res), F["V"], 1e-9 * F["d"] ** 2 * F["L"], "ConvexPolyhedron.volume", lambda: _wit(s))
+        rec.close("ConvexPolyhedron.volume", float(res), F["V"], 1e-9 * (F["V"] if F.get("exact") else F["d"] ** 2 * F["L"]),
+                  "ConvexPolyhedron.volume", lambda: _wit(s))
 
     def area_post(s, a, k, res, tok):
         F = facts(s.vertices)
-        rec.close("ConvexPolyhedron.surface_area", float(res), F["S"], 1e-9 * F["d"] * F["L"], "ConvexPolyhedron.surface_area",
-                  lambda: _wit(s))
+        rec.close("ConvexPolyhedron.surface_area", float(res), F["S"], 1e-9 * (F["S"] if F.get("exact") else F["d"] * F["L"]),
+                  "ConvexPolyhedron.surface_area", lambda: _wit(s))
 
     def cen_post(s, a, k, res, tok):
         F = facts(s.vertices)
@@ -101,7 +140,7 @@ def setup(rec, tier):
         tol = 1e-9 * F["d"] * F["L"]
         mon = "ConvexPolyhedron.get_face_area"
         if isinstance(arg, str):
-            rec.close(mon, float(res), F["S"], tol, mon + "/total", lambda: _wit(s, arg=arg))
+            rec.close(mon, float(res), F["S"], 1e-9 * F["S"] if F.get("exact") else tol, mon + "/total", lambda: _wit(s, arg=arg))
             return
         if arg is None:
             idx = list(range(len(sets)))
@@ -116,7 +155,11 @@ def setup(rec, tier):
                 rec.violation(mon, mon + "/face-is-not-a-hull-facet", lambda: _wit(s, face=sorted(sets[j])))
                 return
             want.append(F["face_area"][sets[j]])
-        rec.close(mon, got, np.array(want), tol, mon + "/per-face", lambda: _wit(s, arg=arg))
+        # exactly representable solids: each face against its own exact area (a sum of positive triangle areas is well conditioned)
+        if F.get("exact") and got.shape == (len(want),):
+            rec.close(mon, got / np.array(want), np.ones(len(want)), 1e-9, mon + "/per-face-relative", lambda: _wit(s, arg=arg, want_areas=want, got_areas=got))
+        else:
+            rec.close(mon, got, np.array(want), tol, mon + "/per-face", lambda: _wit(s, arg=arg))
 
     def fc_post(s, a, k, res, tok):
         F = facts(s.vertices)
@@ -160,7 +203,14 @@ def _read_all(s, rng, rec):
 
 def run_case(i, rng, rec, tier, state):
     cs = state["cs"]
-    c = gen.convex_case(rng)
+    if i % 12 == 5:
+        # exactly representable extreme solids (needles / plates stretched by 2^10..2^20, facets 1e-11..1e-4 rad from coplanar):
+        # the float oracle's band cannot judge them; the facts come from integer arithmetic and are registered for both orders
+        c = gen.convex_exact_extreme(rng)
+        c.update(offset_ratio=-1.0, exact=False)
+        register_exact(c["P"], c["Pint"], c["e"])
+    else:
+        c = gen.convex_case(rng)
     P = c["P"]
     try:
         s = cs.ConvexPolyhedron(P.copy())
@@ -172,6 +222,8 @@ def run_case(i, rng, rec, tier, state):
     a = _read_all(s, rng, rec)
     # second vertex order: values must agree with the first
     perm = rng.permutation(len(P))
+    if "Pint" in c:
+        register_exact(P[perm], [c["Pint"][j] for j in perm], c["e"])
     try:
         s2 = cs.ConvexPolyhedron(P[perm].copy())
         b = _read_all(s2, rng, rec)
@@ -200,7 +252,7 @@ def run_case(i, rng, rec, tier, state):
                       1e-8 * F["V"] * F["L"] ** 2 + 1e-12, "ConvexPolyhedron.inertia_tensor/lattice-exact", lambda: _wit(s))
     # one case in four goes on with the same object: reads have filled whatever it memoises; now it is resized, moved,
     # reoriented through the public API and read again - the postconditions judge against the *current* vertices
-    if i % 4 == 1:
+    if i % 4 == 1 and "Pint" not in c:       # (the extreme solids stay as built: moved or reoriented they leave the stated ranges)
         hist = aging.age(s, rng, reads=False)
         rec.cls("history:aged-object")
         if not np.all(np.isfinite(np.asarray(s.vertices, float))):
